@@ -21,6 +21,9 @@ CHECKS = {
 
  'C06': ('Q4 (exists/forall) projection of the real rows onto the on/off booleans vs a docstring Spec, both directions; Q1 invariants for capacity/ramp/profile/heat/fuel/start flags over all feasible points', '6 C06',
          'The admissible on/off patterns are decided to be EXACTLY those of the runtime/downtime/initial-state specification for all 2^T patterns symbolically (T<=7) and all capacities; capacity, ramp (incl. first step), profile, heat-share, start-flag and fuel-reporting statements hold for all feasible points and all symbolic parameters.'),
+
+ 'C02': ('Q3 two-way embeddings (row-wise SMT queries) between the lifted EAO problem and an independent reference model over physical variables', '6 C02',
+         'opt(EAO) = opt(reference) for ALL parameter values, prices, take volumes and discount rates of every catalogue shape, decided without solving an LP: every EAO-feasible point maps to a reference-feasible point of at least the same value and vice versa; the first half also shows every dispatch EAO can return is feasible for the reference. Efficiencies/factors are generic concrete rationals at Level A, symbolic in the thorough *_B shapes.'),
 }
 NA = {}
 props = [json.loads(l) for l in open(os.path.join(ROOT, 'properties.jsonl'))]
